@@ -6,6 +6,8 @@ bincode 1.x (default options): the same primitives, enum variant index = u32 LE 
 Import-free apart from the script model and the generated tables.
 -/
 import SdModel.Model.Script
+import SdModel.Model.UArr
+import SdModel.Model.UMap
 import SdModel.Gen.Params
 
 namespace Codec
@@ -116,5 +118,150 @@ def decList {β : Type} (d : Bytes → Option (β × Bytes)) (bs : Bytes) : Opti
 def encScript (f : Fmt) (s : List (Script.Change Nat)) : Bytes := encList (encChange f) s
 def encScriptRef (f : Fmt) (s : List (Script.Change Nat)) : Bytes := encList (encChangeRef f) s
 def decScript (f : Fmt) (bs : Bytes) : Option (List (Script.Change Nat) × Bytes) := decList (decChange f) bs
+
+end Codec
+
+/-! ### unordered array-like and flat map-like diffs (hand-written nanoserde codecs; serde-derived bincode) -/
+namespace Codec
+
+/-- `u8` -/
+def encU8 (v : Nat) : Bytes := le 1 v
+def decU8 (bs : Bytes) : Option (Nat × Bytes) := readLE 1 bs
+
+/-- (encode owned, encode ref, decode owned) tables per type and format -/
+def tablesUArrChange : Fmt → List Nat × List Nat × List (Nat × Nat)
+  | .nano => (Gen.nanoUArrChangeOwnedEnc, Gen.nanoUArrChangeRefEnc, Gen.nanoUArrChangeOwnedDec)
+  | .bincode => (Gen.serdeUArrChangeOwnedIdx, Gen.serdeUArrChangeRefIdx, Gen.serdeUArrChangeOwnedIdx.zipIdx)
+def tablesUArrDiff : Fmt → List Nat × List Nat × List (Nat × Nat)
+  | .nano => (Gen.nanoUArrDiffOwnedEnc, Gen.nanoUArrDiffRefEnc, Gen.nanoUArrDiffOwnedDec)
+  | .bincode => (Gen.serdeUArrDiffOwnedIdx, Gen.serdeUArrDiffRefIdx, Gen.serdeUArrDiffOwnedIdx.zipIdx)
+def tablesUMapChange : Fmt → List Nat × List Nat × List (Nat × Nat)
+  | .nano => (Gen.nanoUMapChangeOwnedEnc, Gen.nanoUMapChangeRefEnc, Gen.nanoUMapChangeOwnedDec)
+  | .bincode => (Gen.serdeUMapChangeOwnedIdx, Gen.serdeUMapChangeRefIdx, Gen.serdeUMapChangeOwnedIdx.zipIdx)
+def tablesUMapDiff : Fmt → List Nat × List Nat × List (Nat × Nat)
+  | .nano => (Gen.nanoUMapDiffOwnedEnc, Gen.nanoUMapDiffRefEnc, Gen.nanoUMapDiffOwnedDec)
+  | .bincode => (Gen.serdeUMapDiffOwnedIdx, Gen.serdeUMapDiffRefIdx, Gen.serdeUMapDiffOwnedIdx.zipIdx)
+
+/-- constructor positions of `UnorderedArrayLikeChange` in declaration order -/
+def uctorIdx : UArr.Change Nat → Nat
+  | .insertMany .. => 0 | .removeMany .. => 1 | .insertFew .. => 2 | .removeFew .. => 3
+  | .insertSingle .. => 4 | .removeSingle .. => 5
+
+/-- tag, then `ChangeSpec { item, count }` with `count : usize` (Many) / `u8` (Few), or the bare item (Single) -/
+def encUChangeWith (f : Fmt) (table : List Nat) (c : UArr.Change Nat) : Bytes :=
+  encTag f (tagOf table (uctorIdx c)) ++
+  match c with
+  | .insertMany x n | .removeMany x n => encElem x ++ encUsize n
+  | .insertFew x n | .removeFew x n => encElem x ++ encU8 n
+  | .insertSingle x | .removeSingle x => encElem x
+
+def encUChange (f : Fmt) (c : UArr.Change Nat) : Bytes := encUChangeWith f (tablesUArrChange f).1 c
+def encUChangeRef (f : Fmt) (c : UArr.Change Nat) : Bytes := encUChangeWith f (tablesUArrChange f).2.1 c
+
+def decUChange (f : Fmt) (bs : Bytes) : Option (UArr.Change Nat × Bytes) :=
+  match decTag f bs with
+  | none => none
+  | some (t, bs) =>
+    match ctorOf (tablesUArrChange f).2.2 t with
+    | some 0 => match decElem bs with
+      | some (x, bs) => (decUsize bs).map fun (n, r) => (.insertMany x n, r)
+      | none => none
+    | some 1 => match decElem bs with
+      | some (x, bs) => (decUsize bs).map fun (n, r) => (.removeMany x n, r)
+      | none => none
+    | some 2 => match decElem bs with
+      | some (x, bs) => (decU8 bs).map fun (n, r) => (.insertFew x n, r)
+      | none => none
+    | some 3 => match decElem bs with
+      | some (x, bs) => (decU8 bs).map fun (n, r) => (.removeFew x n, r)
+      | none => none
+    | some 4 => (decElem bs).map fun (x, r) => (.insertSingle x, r)
+    | some 5 => (decElem bs).map fun (x, r) => (.removeSingle x, r)
+    | _ => none
+
+def udiffIdx : UArr.Diff Nat → Nat
+  | .replace _ => 0 | .modify _ => 1
+
+def encUDiffWith (f : Fmt) (tD : List Nat) (encC : UArr.Change Nat → Bytes) (d : UArr.Diff Nat) : Bytes :=
+  encTag f (tagOf tD (udiffIdx d)) ++
+  match d with
+  | .replace l => encList encElem l
+  | .modify es => encList encC es
+
+/-- `UnorderedArrayLikeDiff<u32>` -/
+def encUDiff (f : Fmt) (d : UArr.Diff Nat) : Bytes := encUDiffWith f (tablesUArrDiff f).1 (encUChange f) d
+/-- `&UnorderedArrayLikeDiff<&u32>` -/
+def encUDiffRef (f : Fmt) (d : UArr.Diff Nat) : Bytes := encUDiffWith f (tablesUArrDiff f).2.1 (encUChangeRef f) d
+
+def decUDiff (f : Fmt) (bs : Bytes) : Option (UArr.Diff Nat × Bytes) :=
+  match decTag f bs with
+  | none => none
+  | some (t, bs) =>
+    match ctorOf (tablesUArrDiff f).2.2 t with
+    | some 0 => (decList decElem bs).map fun (l, r) => (.replace l, r)
+    | some 1 => (decList (decUChange f) bs).map fun (es, r) => (.modify es, r)
+    | _ => none
+
+/-! flat map-like : keys and values `u32` -/
+
+def mctorIdx : UMap.Change Nat Nat → Nat
+  | .insertMany .. => 0 | .removeMany .. => 1 | .insertSingle .. => 2 | .removeSingle .. => 3
+
+def encMChangeWith (f : Fmt) (table : List Nat) (c : UMap.Change Nat Nat) : Bytes :=
+  encTag f (tagOf table (mctorIdx c)) ++
+  match c with
+  | .insertMany k v n => encElem k ++ encElem v ++ encUsize n
+  | .removeMany k n => encElem k ++ encUsize n
+  | .insertSingle k v => encElem k ++ encElem v
+  | .removeSingle k => encElem k
+
+def encMChange (f : Fmt) (c : UMap.Change Nat Nat) : Bytes := encMChangeWith f (tablesUMapChange f).1 c
+def encMChangeRef (f : Fmt) (c : UMap.Change Nat Nat) : Bytes := encMChangeWith f (tablesUMapChange f).2.1 c
+
+def decMChange (f : Fmt) (bs : Bytes) : Option (UMap.Change Nat Nat × Bytes) :=
+  match decTag f bs with
+  | none => none
+  | some (t, bs) =>
+    match ctorOf (tablesUMapChange f).2.2 t with
+    | some 0 => match decElem bs with
+      | some (k, bs) => match decElem bs with
+        | some (v, bs) => (decUsize bs).map fun (n, r) => (.insertMany k v n, r)
+        | none => none
+      | none => none
+    | some 1 => match decElem bs with
+      | some (k, bs) => (decUsize bs).map fun (n, r) => (.removeMany k n, r)
+      | none => none
+    | some 2 => match decElem bs with
+      | some (k, bs) => (decElem bs).map fun (v, r) => (.insertSingle k v, r)
+      | none => none
+    | some 3 => (decElem bs).map fun (k, r) => (.removeSingle k, r)
+    | _ => none
+
+def encPair (kv : Nat × Nat) : Bytes := encElem kv.1 ++ encElem kv.2
+def decPair (bs : Bytes) : Option ((Nat × Nat) × Bytes) :=
+  match decElem bs with
+  | some (k, bs) => (decElem bs).map fun (v, r) => ((k, v), r)
+  | none => none
+
+def mdiffIdx : UMap.Diff Nat Nat → Nat
+  | .replace _ => 0 | .modify _ => 1
+
+def encMDiffWith (f : Fmt) (tD : List Nat) (encC : UMap.Change Nat Nat → Bytes) (d : UMap.Diff Nat Nat) : Bytes :=
+  encTag f (tagOf tD (mdiffIdx d)) ++
+  match d with
+  | .replace l => encList encPair l
+  | .modify es => encList encC es
+
+def encMDiff (f : Fmt) (d : UMap.Diff Nat Nat) : Bytes := encMDiffWith f (tablesUMapDiff f).1 (encMChange f) d
+def encMDiffRef (f : Fmt) (d : UMap.Diff Nat Nat) : Bytes := encMDiffWith f (tablesUMapDiff f).2.1 (encMChangeRef f) d
+
+def decMDiff (f : Fmt) (bs : Bytes) : Option (UMap.Diff Nat Nat × Bytes) :=
+  match decTag f bs with
+  | none => none
+  | some (t, bs) =>
+    match ctorOf (tablesUMapDiff f).2.2 t with
+    | some 0 => (decList decPair bs).map fun (l, r) => (.replace l, r)
+    | some 1 => (decList (decMChange f) bs).map fun (es, r) => (.modify es, r)
+    | _ => none
 
 end Codec
